@@ -1,0 +1,76 @@
+//go:build verif
+
+// Contracts for the deductive verifier in /verif (govc). This file contains no code: with the
+// build tag off it is not part of the package, with it on it adds nothing to the build.
+package types
+
+//@ import abci "github.com/cometbft/cometbft/abci/types"
+//@ import sdk "github.com/cosmos/cosmos-sdk/types"
+//@ import common "github.com/ethereum/go-ethereum/common"
+//@ import evmtypes "github.com/EscanBE/evermint/v12/x/evm/types"
+
+// ---------------------------------------------------------------------------------------------
+// events.go — parsing the ethereum_tx / tx_receipt events back into (hash, eth tx index, failed)   (C14)
+// ---------------------------------------------------------------------------------------------
+// which (event type, attribute key) pairs carry the hash / the index / the VM error
+//@ ghost func attrIsHash(ty string, key string) bool = (ty == evmtypes.EventTypeEthereumTx && key == evmtypes.AttributeKeyEthereumTxHash) || (ty == evmtypes.EventTypeTxReceipt && key == evmtypes.AttributeKeyReceiptEvmTxHash)
+//@ ghost func attrIsIndex(ty string, key string) bool = (ty == evmtypes.EventTypeEthereumTx && key == evmtypes.AttributeKeyTxIndex) || (ty == evmtypes.EventTypeTxReceipt && key == evmtypes.AttributeKeyReceiptTxIndex)
+//@ ghost func attrIsVmError(ty string, key string) bool = ty == evmtypes.EventTypeTxReceipt && key == evmtypes.AttributeKeyReceiptVmError
+// a malformed index attribute (the only source of a parse error). Declared uninterpreted and defined by an axiom so that
+// quantified clauses over (event, attribute) pairs carry one small term the solvers can match on.
+//@ ghost func attrBadIndex(ty string, key string, value string) bool
+//@ axiom attr_bad_index_def: forall ty string, key string, value string :: attrBadIndex(ty, key, value) == (attrIsIndex(ty, key) && !uintTextOk(value, 10, 31))
+
+// one attribute: exactly one of the three fields may change, as a function of (type, key, value); the only error is an
+// index attribute that is not a decimal number below 2^31, and then nothing is changed
+//@ func fillTxAttribute(tx *ParsedTx, _type string, key string, value string) (err error)
+//@   requires tx != nil
+//@   modifies tx.Hash, tx.EthTxIndex, tx.Failed
+//@   ensures[C14.attr_error_iff] (err == nil) == !attrBadIndex(_type, key, value)
+//@   ensures[C14.attr_hash] tx.Hash == ((err == nil && attrIsHash(_type, key)) ? common.HexToHash(value) : old(tx.Hash))
+//@   ensures[C14.attr_index] tx.EthTxIndex == ((err == nil && attrIsIndex(_type, key)) ? uintTextVal(value, 10) : old(tx.EthTxIndex))
+//@   ensures[C14.attr_failed] tx.Failed == (old(tx.Failed) || (err == nil && attrIsVmError(_type, key)))
+//@   panics[C14.attr_never_panics] never
+
+// all attributes of one event, in order: Failed accumulates (a VM-error attribute of a receipt event sets it, nothing
+// clears it); an error stops at the first bad index attribute.
+//@ func fillTxAttributes(tx *ParsedTx, _type string, attrs []abci.EventAttribute) (err error)
+//@   requires tx != nil
+//@   modifies tx.Hash, tx.EthTxIndex, tx.Failed
+//@   ensures[C14.attrs_failed] err == nil ==> tx.Failed == (old(tx.Failed) || (exists j int :: 0 <= j && j < len(attrs) && attrIsVmError(_type, attrs[j].Key)))
+//@   ensures[C14.attrs_error_iff] (err == nil) == !(exists j int :: {attrBadIndex(_type, attrs[j].Key, attrs[j].Value)} 0 <= j && j < len(attrs) && attrBadIndex(_type, attrs[j].Key, attrs[j].Value))
+//@   ensures[C14.attrs_untouched] (forall j int :: (0 <= j && j < len(attrs)) ==> (!attrIsHash(_type, attrs[j].Key) && !attrIsIndex(_type, attrs[j].Key))) ==> (tx.Hash == old(tx.Hash) && tx.EthTxIndex == old(tx.EthTxIndex))
+//@   panics[C14.attrs_never_panics] never
+//@ loop 1
+//@   invariant -1 <= rangeindex && rangeindex < len(attrs)
+//@   invariant tx.Failed == (old(tx.Failed) || (exists j int :: 0 <= j && j <= rangeindex && attrIsVmError(_type, attrs[j].Key)))
+//@   invariant forall j int :: {attrBadIndex(_type, attrs[j].Key, attrs[j].Value)} (0 <= j && j <= rangeindex) ==> !attrBadIndex(_type, attrs[j].Key, attrs[j].Value)
+//@   invariant (forall j int :: (0 <= j && j <= rangeindex) ==> (!attrIsHash(_type, attrs[j].Key) && !attrIsIndex(_type, attrs[j].Key))) ==> (tx.Hash == old(tx.Hash) && tx.EthTxIndex == old(tx.EthTxIndex))
+//@   invariant forall p *ParsedTx :: p != tx ==> (p.Hash == old(p.Hash) && p.EthTxIndex == old(p.EthTxIndex) && p.Failed == old(p.Failed))
+
+// ParseTxResult: nil iff the result carries neither an ethereum_tx nor a tx_receipt event; the three Failed rules
+// (non-zero code with a transaction given; no ethereum_tx event; no tx_receipt event) and, conversely, Failed only by one
+// of these rules or by a VM-error attribute of a receipt event. The only error is a malformed index attribute.
+//@ ghost func evIsEthTx(ty string) bool = ty == evmtypes.EventTypeEthereumTx
+//@ ghost func evIsReceipt(ty string) bool = ty == evmtypes.EventTypeTxReceipt
+//@ func ParseTxResult(res *abci.ExecTxResult, tx sdk.Tx) (p *ParsedTx, err error)
+//@   requires res != nil
+//@   modifies nothing
+//@   ensures[C14.parse_nil_iff_no_event] err == nil ==> ((p == nil) == !(exists j int :: 0 <= j && j < len(res.Events) && (evIsEthTx(res.Events[j].Type) || evIsReceipt(res.Events[j].Type))))
+//@   ensures[C14.parse_fresh] p != nil ==> fresh(p)
+//@   ensures[C14.parse_failed_rules] (err == nil && p != nil) ==> (((res.Code != 0 && tx != nil) || !(exists j int :: 0 <= j && j < len(res.Events) && evIsEthTx(res.Events[j].Type)) || !(exists j int :: 0 <= j && j < len(res.Events) && evIsReceipt(res.Events[j].Type))) ==> p.Failed)
+//@   ensures[C14.parse_failed_only_by_rule] (err == nil && p != nil && p.Failed) ==> ((res.Code != 0 && tx != nil) || !(exists j int :: 0 <= j && j < len(res.Events) && evIsEthTx(res.Events[j].Type)) || !(exists j int :: 0 <= j && j < len(res.Events) && evIsReceipt(res.Events[j].Type)) || (exists j int, k int :: 0 <= j && j < len(res.Events) && evIsReceipt(res.Events[j].Type) && 0 <= k && k < len(res.Events[j].Attributes) && res.Events[j].Attributes[k].Key == evmtypes.AttributeKeyReceiptVmError))
+//@   ensures[C14.parse_vm_error_fails] (err == nil && p != nil && (exists j int, k int :: 0 <= j && j < len(res.Events) && evIsReceipt(res.Events[j].Type) && 0 <= k && k < len(res.Events[j].Attributes) && res.Events[j].Attributes[k].Key == evmtypes.AttributeKeyReceiptVmError)) ==> p.Failed
+//@   ensures[C14.parse_error_iff] (err == nil) == !(exists j int, k int :: {attrBadIndex(res.Events[j].Type, res.Events[j].Attributes[k].Key, res.Events[j].Attributes[k].Value)} 0 <= j && j < len(res.Events) && 0 <= k && k < len(res.Events[j].Attributes) && attrBadIndex(res.Events[j].Type, res.Events[j].Attributes[k].Key, res.Events[j].Attributes[k].Value))
+//@   ensures[C14.parse_error_is_nil] err != nil ==> p == nil
+//@   panics[C14.parse_never_panics] never
+//@ loop 1
+//@   invariant -1 <= rangeindex && rangeindex < len(res.Events)
+//@   invariant foundEventEthTx == (exists j int :: 0 <= j && j <= rangeindex && evIsEthTx(res.Events[j].Type))
+//@   invariant foundEventReceipt == (exists j int :: 0 <= j && j <= rangeindex && evIsReceipt(res.Events[j].Type))
+//@   invariant (p == nil) == (!foundEventEthTx && !foundEventReceipt)
+//@   invariant p != nil ==> fresh(p)
+//@   invariant (p != nil && p.Failed) ==> (exists j int, k int :: 0 <= j && j <= rangeindex && evIsReceipt(res.Events[j].Type) && 0 <= k && k < len(res.Events[j].Attributes) && res.Events[j].Attributes[k].Key == evmtypes.AttributeKeyReceiptVmError)
+//@   invariant (p != nil && (exists j int, k int :: 0 <= j && j <= rangeindex && evIsReceipt(res.Events[j].Type) && 0 <= k && k < len(res.Events[j].Attributes) && res.Events[j].Attributes[k].Key == evmtypes.AttributeKeyReceiptVmError)) ==> p.Failed
+//@   invariant forall j int, k int :: {attrBadIndex(res.Events[j].Type, res.Events[j].Attributes[k].Key, res.Events[j].Attributes[k].Value)} (0 <= j && j <= rangeindex && 0 <= k && k < len(res.Events[j].Attributes)) ==> !attrBadIndex(res.Events[j].Type, res.Events[j].Attributes[k].Key, res.Events[j].Attributes[k].Value)
+//@   invariant forall q *ParsedTx :: !fresh(q) ==> (q.Hash == old(q.Hash) && q.EthTxIndex == old(q.EthTxIndex) && q.Failed == old(q.Failed))
